@@ -33,3 +33,5 @@ pub mod sieve;
 pub use sieve::*;
 pub mod numint;
 pub use numint::*;
+pub mod kaliski;
+pub use kaliski::*;
